@@ -40,7 +40,7 @@ man = {
     ],
     "checks": checks,
     "not_applicable": na,
-    "notes": "Driver: /verif/check <ID> [--tier quick|thorough] [--replay path]; VERIF_SEED selects the rapid seeds. Known findings: /verif/known_findings.json.",
+    "notes": "Driver: /verif/check <ID> [--tier quick|thorough] [--replay path] [--seed N]; VERIF_SEED selects the rapid seeds. Every check first replays the committed regression cases /verif/replays/<ID>/*.json (one per repaired defect) at every acceleration level and probes the known findings (/verif/known_findings.json: 5 known, 26 fixed entries). Exit 0 = held (KNOWN-FINDING lines allowed), 1 = VIOLATION line(s), 2 = inconclusive (build failure, oracle self-disagreement, watchdog hit that did not reproduce). The thorough tier adds native go fuzzing (C01, C02, C03, C07, C13) and larger enumerations. Sensitivity: /verif/seeded (136 confirmed seeded changes with the checks that catch them, REGRESSION.md), /verif/findings (defect-hunt reports), DESIGN.md section 9.",
 }
 json.dump(man, open("MANIFEST.json", "w"), indent=1)
 print("claimed:", [c["property_id"] for c in checks], "not claimed:", [n["property_id"] for n in na])
